@@ -116,3 +116,37 @@ Proof.
   apply is_in_set_spec in E. destruct E as (y & Hy & Ey). apply remove_from_set_spec in Hy. destruct Hy as [_ Hy]. congruence.
 Qed.
 Print Assumptions C14_removed_mark_is_absent.
+
+(* ---- MarkType.remove_from_set / MarkType.is_in_set (by type, whatever the attributes) ---- *)
+Theorem C14_type_remove_spec : forall t set y,
+  In y (type_remove_from_set t set) <-> In y set /\ m_ty y <> t.
+Proof.
+  intros t set y. unfold type_remove_from_set. rewrite filter_In. split; intros [H1 H2]; split; auto.
+  - intros E. rewrite E, Nat.eqb_refl in H2. discriminate.
+  - apply Bool.negb_true_iff. apply Nat.eqb_neq. exact H2.
+Qed.
+Print Assumptions C14_type_remove_spec.
+
+Theorem C14_type_is_in_set_some : forall t set m,
+  type_is_in_set t set = Some m -> In m set /\ m_ty m = t.
+Proof.
+  intros t set m H. unfold type_is_in_set in H. apply find_some in H. destruct H as [H1 H2].
+  split; [exact H1|]. apply Nat.eqb_eq. exact H2.
+Qed.
+Print Assumptions C14_type_is_in_set_some.
+
+Theorem C14_type_is_in_set_none : forall t set,
+  type_is_in_set t set = None <-> (forall y, In y set -> m_ty y <> t).
+Proof.
+  intros t set. unfold type_is_in_set. split.
+  - intros H y Hy E. pose proof (find_none _ _ H y Hy) as F. cbv beta in F. rewrite E, Nat.eqb_refl in F. discriminate.
+  - intros H. destruct (find _ set) eqn:E; [|reflexivity]. apply find_some in E. destruct E as [E1 E2].
+    apply Nat.eqb_eq in E2. exfalso. exact (H _ E1 E2).
+Qed.
+Print Assumptions C14_type_is_in_set_none.
+
+Theorem C14_type_removed_is_absent : forall t set, type_is_in_set t (type_remove_from_set t set) = None.
+Proof.
+  intros t set. apply C14_type_is_in_set_none. intros y Hy. apply C14_type_remove_spec in Hy. tauto.
+Qed.
+Print Assumptions C14_type_removed_is_absent.
